@@ -7,6 +7,7 @@ import (
 	"flag"
 	"fmt"
 	"math/big"
+	"os"
 	"reflect"
 	"sort"
 	"strings"
@@ -69,6 +70,9 @@ func mk(proto registers.Register, raw *big.Int) registers.Register {
 }
 
 func regLit(r registers.Register) string {
+	if r == nil { // a nil entry in a parsed collection: no register of the model has this ID
+		return "(\"<nil>\", 0)"
+	}
 	raw, _ := rawOf(r)
 	return fmt.Sprintf("(%s, %s)", gal.Str2(string(r.ID())), gal.Big(raw))
 }
@@ -84,6 +88,10 @@ func regsLit(rs []registers.Register) string {
 func regsJSON(rs []registers.Register) []map[string]string {
 	var o []map[string]string
 	for _, r := range rs {
+		if r == nil {
+			o = append(o, map[string]string{"id": "<nil>"})
+			continue
+		}
 		raw, _ := rawOf(r)
 		o = append(o, map[string]string{"id": string(r.ID()), "raw": "0x" + raw.Text(16)})
 	}
@@ -135,6 +143,9 @@ func smallKey(regs registers.Registers) bool {
 
 func sameSet(a, b []registers.Register) string {
 	key := func(r registers.Register) string {
+		if r == nil {
+			return "<nil>"
+		}
 		raw, _ := rawOf(r)
 		return string(r.ID()) + "=" + raw.Text(16)
 	}
@@ -155,7 +166,7 @@ func sameSet(a, b []registers.Register) string {
 
 func main() {
 	dump := flag.Bool("dump", false, "print the register table and exit")
-	c := gal.New("C16", header, 500)
+	c := gal.New("C16", header, 350)
 	if *dump {
 		for _, p := range protos {
 			b, _ := registers.ValueBytes(mk(p, big.NewInt(1)))
@@ -374,34 +385,16 @@ func main() {
 		err := yaml.Unmarshal(b, &out)
 		c.Probe("C16-yaml-small-public-key", err != nil, "yaml.Marshal then yaml.Unmarshal of Registers{TXTPublicKey{} (all zero)} returns an error")
 	}
-	// YAML documents written by hand: current hex and obsolete base64 encodings, malformed values
-	docs := []string{
-		"ACM_STATUS: 0x12\n", "ACM_STATUS: 0x\n", "ACM_STATUS: 0x1ffffffff\n", "ACM_STATUS: 0x1ffffffffffffffff\n", "ACM_STATUS: 18\n", "ACM_STATUS: -1\n",
-		"ACM_STATUS: base64:EgAAAAAAAAA=\n", "ACM_STATUS: base64:EgA=\n", "ACM_STATUS: base64:!!!\n", "ACM_STATUS: zz\n", "ACM_STATUS: 0xzz\n",
-		"TXT.ESTS: 0x1ff\n", "TXT.ESTS: 0xff\n", "TXT.ERRORCODE: 0xc0000001\n", "TXT.ERRORCODE: base64:AQAAwA==\n",
-		"TXT.PUBLIC.KEY: 0x0102\n", "TXT.PUBLIC.KEY: 0x" + strings.Repeat("ab", 32) + "\n", "TXT.PUBLIC.KEY: 0x" + strings.Repeat("ab", 33) + "\n", "TXT.PUBLIC.KEY: 5\n",
-		"TXT.PUBLIC.KEY: base64:" + "q6urq6urq6urq6urq6urq6urq6urq6urq6urq6urq6s=" + "\n",
-		"BOGUS: 0x1\n", "ACM_STATUS: [1,2]\n", "ACM_STATUS: {a: 1}\n", "- a\n- b\n", "ACM_STATUS: 0x12\nTXT.ESTS: 0x01\nTXT.STS: 0xffffffffffffffff\n",
+	// value forms, harness-written documents, what Marshal writes, reused destinations (forms.go)
+	runForms(c)
+	runMalformed(c)
+	runMarshalled(c)
+	tmp, terr := os.MkdirTemp("", "c16-")
+	if terr != nil {
+		panic(terr)
 	}
-	for _, doc := range docs {
-		var out registers.Registers
-		var err error
-		panicked, msg := gal.Recover(func() { err = yaml.Unmarshal([]byte(doc), &out) })
-		obs := "OErr"
-		if panicked {
-			obs = "OPanic"
-		} else if err == nil {
-			obs = "(OOk " + regsLit(out) + ")"
-		}
-		d := map[string]interface{}{"yaml": doc}
-		_ = obs
-		idx := -1
-		c.Count("yaml_doc_oracle_only")
-		if panicked {
-			c.OracleFail(idx, "UnmarshalYAML panics on "+fmt.Sprintf("%q", doc)+": "+msg, "pkg/registers/registers.go:UnmarshalYAML", d)
-		} else {
-			c.OracleOK()
-		}
-	}
-	c.Finish("per register type: raw-bytes round trip and New(id, own-width value) on zero/all-ones/single-bit/all-but-one-bit/small/byte-boundary/random raw values, ValueFromBytes on 13 byte lengths, New on 13 value kinds incl. unknown id; random sub-collections (in random order) through legacy JSON and YAML; hand-written YAML documents with hex, base64 and malformed values; non-trivial = non-zero raw / non-empty collection; distinct = distinct Gallina literal")
+	runSequences(c, tmp)
+	_ = os.RemoveAll(tmp)
+	runNewFromRegister(c)
+	c.Finish("per register type: raw-bytes round trip and New(id, own-width value) on zero/all-ones/single-bit/all-but-one-bit/small/byte-boundary/random raw values, ValueFromBytes on 13 byte lengths, New on 13 value kinds incl. unknown id; random sub-collections (in random order) through legacy JSON and YAML; every textual form of a YAML value (0x/0X, lower/upper/mixed-case and zero-padded digits, decimal, base64:<std base64 of ValueBytes>, each plain and quoted) for every register type alone and mixed inside whole collections, with the collection the document denotes as the expected result; malformed and borderline scalars (wrong widths, broken base64, wrong-case prefixes, repeated and unknown keys); the entries json.Marshal / yaml.Marshal write, read back with plain decoders; 2-4 documents (package-written JSON/YAML, harness-written, malformed) unmarshalled one after another into ONE destination (nil, empty, filled, filled with spare capacity) directly, as a struct field and through helpers.FlagRegisters.Set; New handed a register; non-trivial = non-zero raw / non-empty collection; distinct = distinct Gallina literal")
 }
